@@ -3,3 +3,4 @@ CONSTANTS
   WordMod = 0
 INVARIANT Conforms
 INVARIANT EndsAgree
+INVARIANT Witnessed
